@@ -1,6 +1,8 @@
 import TracklibVerif.Model.Graph
 import TracklibVerif.Model.GraphPathExt
 import TracklibVerif.Model.GraphMut
+import TracklibVerif.Model.GraphAStarPath
+import TracklibVerif.Model.GraphSharedPath
 import TracklibVerif.Drv.Util
 import TracklibVerif.Drv.C06
 /-! Driver handler for C07 (shortest path reconstruction), weights in `Rat` (or `Float`, commands prefixed with `f`), points on the integer lattice.
@@ -43,7 +45,23 @@ tag; the reply gives the coordinates of the observations of the returned track.
      → outputs (`|`) `#` the `output_dict` entries `#` the final content: NEXT_EDGES per node 0..n-1 `!` stored position per
        node (`-` = not registered) `!` node ids in insertion order `!` the edges `id,s,t,w,o` in insertion order `!` their
        polylines
-  fpaths / fsession / fmsession: the same with weights, cut-offs and labels as IEEE-754 bit patterns (model instantiated at `Float`) -/
+  asession <n> <order> <edges> <pos> <lines> <af> <hpos> <ops>
+     `session` on an object WITH ITS ROUTING SETTINGS (`Model/GraphAStarPath.lean`): `<hpos>` = `e,n,u` per node (`;`, weights'
+     format): the coordinates `Node.distanceTo` reads for the A* heuristic; `<ops>` as for `session` plus
+        `M:<mode>`   setRoutingMethod(mode)    → `ok`
+        `A:<w>`      setAStarWeight(w)         → `ok`
+     (exact stream: refused when a distance between two nodes is not rational)
+  fampaths <n> <edges> <pos> <lines> <af> <ops>
+     a PROGRAM over a family of networks that share their Node / Edge objects (`Model/GraphShared.lean`,
+     `Model/GraphSharedPath.lean`: one common flag store, `__resetFlags` over a network's own nodes only). `<edges>` / `<pos>` /
+     `<lines>`: every Edge object of the program with its geometry, the coordinates of the Node objects (as for `session`).
+     `<ops>` = `;`-separated `<k>:<op>`, `<k>` the network addressed:
+        `c`  Network() (becomes the next network) · `n,<v>` addNode · `e,<id>,<s>,<t>,<w>,<o>` addEdge ·
+        `r,<s>,<t|_>,<cut>,<d>` run_routing_forward · `d,<s>,<t>,<cut>,<d>` / `l,<s>,<cut>,<d>` shortest_distance ·
+        `x,<s>,<cut>` nets.append(nets[k].sub_network(s, cut)) → `s:<node ids>/<edge ids>` ·
+        `W,<id>,<w>` the weight of that Edge object · `P,<s>,<t>,<cut>` shortest_path → `<path>@<label>`
+     → the outputs joined by `|` (`ok`, `err`, or as above)
+  fpaths / fsession / fmsession / fasession: the same with weights, cut-offs and labels as IEEE-754 bit patterns (model instantiated at `Float`) -/
 namespace TV.Drv.C07
 open TV.Graph TV.GraphExt TV.Drv
 
@@ -291,9 +309,110 @@ def handleW (cmd : String) (args : List String) : String :=
   | _, _ => "bad-request"
 end generic
 
+
+section astar
+variable {W : Type} (pw : String → Option W) (sw : W → String) (sqrt : W → W) (okPos : List (Pos W) → Bool)
+variable [LT W] [DecidableLT W] [Add W] [OfNat W 0] [OfNat W 1] [Sub W] [Mul W]
+
+def hpos? (s : String) : Option (Pos W) :=
+  match (splitTok s ',').mapM pw with
+  | some [e, n, u] => some ⟨e, n, u⟩
+  | _ => none
+
+def opA? (n : Nat) (s : String) : Option (GraphExt.OpA W) :=
+  match splitTok s ':' with
+  | ["M", m] => m.toNat?.map GraphExt.OpA.setMethod
+  | ["A", w] => (pw w).map GraphExt.OpA.setWeight
+  | _ => (op? pw n s).map GraphExt.OpA.call
+
+def handleA (args : List String) : String :=
+  match args with
+  | [n, order, es, pos, lines, af, hpos, ops] =>
+    match C06.netW? pw n es, flag? af with
+    | some net, some af =>
+      match C06.order? net.n order, geometry? net af pos lines, (splitTok hpos ';').mapM (hpos? pw), (splitTok ops ';').mapM (opA? pw net.n) with
+      | some order, some sc, some hp, some ops =>
+        if hp.length == net.n && okPos hp then
+          match hp with
+          | [] => "bad-request"
+          | p0 :: _ =>
+            let r := GraphExt.runSessionA sqrt net sc.geo (fun v => hp[v]?.getD p0) order GraphExt.SessA.start ops
+            joinWith "|" (r.1.map (showOut sw sc)) ++ "#" ++ showDict sw net.n r.2.sess.dict
+        else "bad-request"
+      | _, _, _, _ => "bad-request"
+    | _, _ => "bad-request"
+  | _ => "bad-request"
+end astar
+
+/-! ### `fampaths`: a program over networks that share their `Node` / `Edge` objects -/
+section fam
+open TV.Graph
+
+def showFamPOut (sc : Scene) : GraphExt.FamPOut Rat → String
+  | .out (.subnet ns es) => "s:" ++ joinWith "," (ns.map toString) ++ "/" ++ joinWith "," (es.map toString)
+  | .out .err => "err"
+  | .out _ => "ok"
+  | .path b l => showBackT sc b ++ "@" ++ showLabel showRat l
+  | .err => "err"
+
+def famPRun (sc : Scene) (F : Fam Rat) : List String → Option (List String)
+  | [] => some []
+  | tokn :: rest =>
+    match tokn.splitOn ":" with
+    | [k, op] =>
+      match k.toNat? with
+      | none => none
+      | some k =>
+        if op == "c" then (famPRun sc (GraphExt.execFamP sc.geo F (.fam .create)).1 rest).map ("ok" :: ·)
+        else
+          match splitTok op ',' with
+          | ["x", a, c] =>
+            match a.toNat?, C06.cutW? rat? c with
+            | some a, some c =>
+              let r := GraphExt.execFamP sc.geo F (.fam (.extract k a c))
+              (famPRun sc r.1 rest).map (showFamPOut sc r.2 :: ·)
+            | _, _ => none
+          | ["W", i, w] =>
+            match i.toNat?, rat? w with
+            | some i, some w =>
+              let r := GraphExt.execFamP sc.geo F (.fam (.setWeight i w))
+              (famPRun sc r.1 rest).map (showFamPOut sc r.2 :: ·)
+            | _, _ => none
+          | ["P", a, b, c] =>
+            match a.toNat?, b.toNat?, C06.cutW? rat? c with
+            | some a, some b, some c =>
+              let r := GraphExt.execFamP sc.geo F (.path k a b c)
+              (famPRun sc r.1 rest).map (showFamPOut sc r.2 :: ·)
+            | _, _, _ => none
+          | _ =>
+            match C06.opW? rat? op with
+            | none => none
+            | some o =>
+              let r := GraphExt.execFamP sc.geo F (.fam (.on k o))
+              (famPRun sc r.1 rest).map (showFamPOut sc r.2 :: ·)
+    | _ => none
+
+def handleFam (args : List String) : String :=
+  match args with
+  | [n, es, pos, lines, af, ops] =>
+    match C06.netW? rat? n es, flag? af with
+    | some net, some af =>
+      match geometry? net af pos lines with
+      | some sc =>
+        match famPRun sc (Fam.new net.n) (splitTok ops ';') with
+        | some out => joinWith "|" out
+        | none => "bad-request"
+      | none => "bad-request"
+    | _, _ => "bad-request"
+  | _ => "bad-request"
+end fam
+
 /-- `paths` / `session`: weights, cut-offs and labels are rationals; `fpaths` / `fsession`: IEEE-754 bit patterns, the
 same model definitions instantiated at `Float` -/
 def handle (cmd : String) (args : List String) : String :=
-  if cmd.startsWith "f" then handleW C06.fl? showFloat (cmd.drop 1).toString args
+  if cmd == "fampaths" then handleFam args
+  else if cmd == "asession" then handleA rat? showRat sqrtRat C06.okPosRat args
+  else if cmd == "fasession" then handleA C06.fl? showFloat Float.sqrt C06.okPosFloat args
+  else if cmd.startsWith "f" then handleW C06.fl? showFloat (cmd.drop 1).toString args
   else handleW rat? showRat cmd args
 end TV.Drv.C07
